@@ -197,6 +197,40 @@ impl Relation for StdOp {
             };
             return c.constrain_as_public_input(l, &r);
         }
+        if let Some(rest) = o.strip_prefix("bytes_") {
+            // bytes obtained in several ways, read as native values (the cells keep whatever range knowledge the gadget has
+            // recorded about them), then operations whose layout depends on that knowledge; n = the bound in bits
+            let nb = self.n as u32;
+            let (x, y): (AssignedNative<F>, AssignedNative<F>) = match rest {
+                "assigned_lt" | "assigned_bound" => {
+                    let bs: Vec<AssignedByte<F>> =
+                        s.assign_many(l, &[w(0).map(|v| v.as_u64().unwrap_or(0) as u8), w(1).map(|v| v.as_u64().unwrap_or(0) as u8)])?;
+                    (bs[0].clone().into(), bs[1].clone().into())
+                }
+                "decomposed_lt" => {
+                    let a: AssignedNative<F> = s.assign(l, w(0).map(|v| F::from(v.as_u64().unwrap_or(0))))?;
+                    let b: AssignedNative<F> = s.assign(l, w(1).map(|v| F::from(v.as_u64().unwrap_or(0))))?;
+                    let ab = s.assigned_to_le_bytes(l, &a, Some(2))?;
+                    let bb = s.assigned_to_le_bytes(l, &b, Some(2))?;
+                    (ab[0].clone().into(), bb[0].clone().into())
+                }
+                _ => {
+                    // "selected_lt": a witness bit chooses between two bytes
+                    let bs: Vec<AssignedByte<F>> =
+                        s.assign_many(l, &[w(0).map(|v| v.as_u64().unwrap_or(0) as u8), w(1).map(|v| v.as_u64().unwrap_or(0) as u8)])?;
+                    let c: midnight_circuits::types::AssignedBit<F> = s.assign(l, w(0).map(|v| v.as_u64().unwrap_or(0) % 2 == 1))?;
+                    let z = s.select(l, &c, &bs[0], &bs[1])?;
+                    (z.into(), bs[1].clone().into())
+                }
+            };
+            if rest == "assigned_bound" {
+                s.assert_lower_than_fixed(l, &x, &(BigUint::from(1u8) << nb))?;
+                return s.constrain_as_public_input(l, &y);
+            }
+            let c = s.lower_than(l, &x, &y, nb)?;
+            s.constrain_as_public_input(l, &c)?;
+            return s.constrain_as_public_input(l, &x);
+        }
         if let Some(rest) = o.strip_prefix("bigsel_") {
             // two big integers with DIFFERENT size bounds (n and 2n - 8 bits), a condition bit that picks one of them
             // (select / cond_swap), then an operation whose layout depends on the bounds of its operand
